@@ -770,6 +770,14 @@ class SVG:
         """
         Removes groups where possible, applies transforms, applies clip paths.
         """
+        # opacity on the root composites the whole drawing as one group; the root's own
+        # attributes are dropped below, so hand it to a group around the content
+        if "opacity" in self.svg_root.attrib:
+            root_group = etree.Element(f"{{{svgns()}}}g", nsmap=self.svg_root.nsmap)
+            root_group.attrib["opacity"] = self.svg_root.attrib.pop("opacity")
+            root_group.extend(list(self.svg_root))
+            self.svg_root.append(root_group)
+
         # Reversed: we want leaves first
         to_process = reversed(tuple(c for c in self.breadth_first()))
 
